@@ -40,6 +40,7 @@ _REQ = ["group:field", "group:curve", "group:pairing", "group:hash", "group:code
         "repeat", "fresh_process_replays", "const_as_argument", "adhoc_field_class", "history:nontrivial"]
 REQUIRED_LABELS = {"quick": _REQ, "thorough": _REQ}
 
+VALUE_ATTRS = ("n", "coeffs", "modulus_coeffs", "degree", "mc_tuples")
 CURVE_MODULES = ("bn128", "optimized_bn128", "bls12_381", "optimized_bls12_381")
 ADHOC = (("ref", 7, (1, 0)), ("opt", 7, (1, 0)), ("opt", 7, (2, 0)), ("opt", 13, (2, 0)), ("ref", 5, (2, 0)))
 
@@ -134,7 +135,10 @@ class World:
         if isinstance(v, type):
             return ("type", v.__name__, getattr(v, "field_modulus", None))
         if hasattr(v, "field_modulus") and (hasattr(v, "n") or hasattr(v, "coeffs")) and depth < 8:
-            inner = tuple(sorted((k, self.snap(x, depth + 1)) for k, x in vars(v).items() if k != "sgn0"))
+            # the value-bearing attributes only: an extra private attribute (a per-instance memo) is not
+            # a change of value; the one cache the library has today (sgn0) is additionally checked for
+            # consistency with the element's value
+            inner = tuple((k, self.snap(vars(v)[k], depth + 1)) for k in VALUE_ATTRS if k in vars(v))
             cached = vars(v).get("sgn0")
             if cached is not None or "sgn0" in vars(v):
                 want = self._sgn0_rule(v)
@@ -204,7 +208,13 @@ class World:
     def diff_state(self, st):
         """Baseline entries that changed or disappeared (entries that only appeared are not constants)."""
         base = self.baseline[1]
-        return [k for k in sorted(base) if base[k] != st.get(k, "<missing>")]
+        return [k for k in sorted(base) if base[k] != st.get(k, "<missing>") and not self._uninitialised(base[k])]
+
+    @staticmethod
+    def _uninitialised(v):
+        """None, empty containers and empty dicts at import time are slots for lazily built tables or
+        caches, not constants: filling them once is not a mutation of a constant."""
+        return v is None or v in (("list",), ("tuple",), "dict") or v == ("dict",)
 
     # ---- constants ------------------------------------------------------------------------------------------
     def _constants(self):
